@@ -26,11 +26,13 @@ func plan(tier string, seed uint64) []run {
 		return []run{
 			{"persisted clocks (GoGitRepo), one replica with a pre-fetched remote", Params{Seed: seed, Edit2: true, DelSingle: true, MaxIdent: 2, MaxNew: 3}, 7, 9 * time.Minute},
 			{"in-memory clocks (mockRepo)", Params{Mem: true, Seed: seed, Edit2: true, MaxIdent: 2, MaxNew: 3}, 8, 4 * time.Minute},
+			{"persisted clocks, remote head is a merge commit written by the other replica", Params{Seed: seed, MergeHead: true, Edit2: true, DelSingle: true, MaxIdent: 1, MaxNew: 2}, 6, 5 * time.Minute},
 		}
 	}
 	return []run{
 		{"persisted clocks (GoGitRepo), one replica with a pre-fetched remote", Params{Seed: seed, Edit2: true, DelSingle: true, MaxIdent: 1, MaxNew: 2}, 6, 150 * time.Second},
 		{"in-memory clocks (mockRepo)", Params{Mem: true, Seed: seed, Edit2: true, MaxIdent: 1, MaxNew: 2}, 7, 60 * time.Second},
+		{"persisted clocks, remote head is a merge commit written by the other replica", Params{Seed: seed, MergeHead: true, MaxIdent: 1, MaxNew: 1}, 4, 60 * time.Second},
 	}
 }
 
